@@ -1,3 +1,94 @@
 package main
 
-func (g *gen) stream3(name string, n int) bool { return false }
+import "fmt"
+
+func (g *gen) stream3(name string, n int) bool {
+	switch name {
+	case "agent-seq":
+		g.agentSeq(n)
+	default:
+		return g.stream4(name, n)
+	}
+	return true
+}
+
+var agIDs = []string{"0102030405060708090a0b0c", "0102030405060708090a0b0d", "ff02030405060708090a0b0c"}
+
+func (g *gen) agentAlphabet() []string {
+	var al []string
+	for _, id := range agIDs {
+		for _, d := range []int{10, 20} {
+			al = append(al, fmt.Sprintf("AG start %s %d", id, d))
+		}
+		al = append(al, "AG stop "+id, "AG process "+id)
+	}
+	for _, t := range []int{5, 10, 11, 25} {
+		al = append(al, fmt.Sprintf("AG collect %d", t))
+	}
+	return append(al, "AG sethandler", "AG close")
+}
+
+// n = exhaustive depth; followed by random long sequences
+func (g *gen) agentSeq(depth int) {
+	al := g.agentAlphabet()
+	cnt := 0
+	seq := make([]int, depth)
+	var rec func(k int)
+	rec = func(k int) {
+		if k == depth {
+			g.caseMark("agent-exh", cnt)
+			cnt++
+			g.emit("AG new")
+			for _, i := range seq {
+				g.emit("%s", al[i])
+			}
+			return
+		}
+		for i := range al {
+			seq[k] = i
+			rec(k + 1)
+		}
+	}
+	rec(0)
+	nrand := 300
+	if g.tier == "thorough" {
+		nrand = 5000
+	}
+	for i := 0; i < nrand; i++ {
+		g.caseMark("agent-rand", i)
+		g.emit("AG new")
+		nid := 1 + g.r.intn(64)
+		ids := make([]string, nid)
+		for j := range ids {
+			b := g.r.bytes(12)
+			if j > 0 && g.r.chance(1, 3) { // ids differing in one bit
+				copy(b, unhex(ids[j-1]))
+				b[g.r.intn(12)] ^= 1 << uint(g.r.intn(8))
+			}
+			ids[j] = showHex(b)
+		}
+		now := 100
+		for k := g.r.intn(2000); k > 0; k-- {
+			id := ids[g.r.intn(nid)]
+			switch op := g.r.intn(20); {
+			case op < 8:
+				g.emit("AG start %s %d", id, now+g.r.intn(40)-10)
+			case op < 11:
+				g.emit("AG stop %s", id)
+			case op < 14:
+				g.emit("AG process %s", id)
+			case op < 18:
+				now += g.r.intn(15)
+				g.emit("AG collect %d", now)
+			case op == 18:
+				g.emit("AG sethandler")
+			default:
+				if g.r.chance(1, 10) {
+					g.emit("AG close")
+				}
+			}
+		}
+		g.emit("AG close")
+		g.emit("AG start %s 5", ids[0])
+	}
+}
